@@ -24,7 +24,8 @@ THEOREMS = [
 ]
 RULE = (
     "cases = templates with k in 1..4 non-collateral blocks whose queries overlap (same party, same assets, "
-    "overlapping refs; occasionally two blocks with one name) plus optional collateral, over random stores of 1..7 "
+    "overlapping refs; occasionally two blocks with one name; block names on both sides of `collateral` in the name "
+    "order the resolver follows) plus optional collateral, over random stores of 1..7 "
     "UTxOs, resolved by the real inputs::resolve and compiled; observed: selection per block and body.inputs. "
     "Non-trivial = non-empty store and a constrained query; distinct = distinct (store, queries)"
 )
